@@ -49,6 +49,7 @@ type vWorld struct {
 	nStanding int
 	// the registered filter a batch harness selected through (nil: unregistered), see batchEpilogue
 	regBatch *Filter0
+	relShape bool // built by vShapeRel
 }
 
 // vNoMul: set by the thorough-only harnesses (Verif<ID>T_*), which are deep on their own and
